@@ -45,7 +45,8 @@ ASSUMPTIONS = [
 
 BOHR = 1.8897261246257702
 MOLS = {   # the first entry is the baseline of the deviation-bounded product: heteronuclear on purpose
-    "CO": ([6, 8], [[0.0, 0.0, -1.1], [0.0, 0.1, 1.05]]),
+    # (atomic numbers NOT in ascending order: a constructor that regroups atoms by element must show; seeded change C07-F)
+    "CO": ([8, 6], [[0.0, 0.0, -1.1], [0.0, 0.1, 1.05]]),
     "H": ([1], [[0.0, 0.0, 0.0]]),
     "HCl": ([17, 1], [[0.2, 0.0, 0.0], [0.2, 0.3, 2.4]]),
     "H2O": ([8, 1, 1], [[0.0, 0.0, 0.2], [0.0, 1.43, -0.9], [0.1, -1.43, -0.9]]),
@@ -415,6 +416,16 @@ def forms(ctx):
         ("from_preset:default-seed-and-weights", lambda: MolGrid.from_preset(nums, coords, "coarse", rgrid=rg),
          lambda: [AtomGrid.from_preset(int(nums[i]), "coarse", rg, center=coords[i], rotate=37) for i in range(n)], 37),
     ]
+    # default radial grids (rgrid omitted) for a molecule whose atomic numbers are neither sorted nor distinct
+    def drg(i):
+        return default_rgrid(int(nums[i]))
+
+    table.append(("from_size:default-rgrid", lambda: MolGrid.from_size(nums, coords, 26, aim_weights=B(), rotate=0),
+                  lambda: [AtomGrid(drg(i), degrees=None, sizes=[26], center=coords[i], rotate=0) for i in range(n)], 0))
+    table.append(("from_preset:default-rgrid", lambda: MolGrid.from_preset(nums, coords, "coarse", aim_weights=B(), rotate=0),
+                  lambda: [AtomGrid.from_preset(int(nums[i]), "coarse", None, center=coords[i], rotate=0) for i in range(n)], 0))
+    table.append(("from_pruned:default-rgrid", lambda: MolGrid.from_pruned(nums, coords, 1.2, [rs] * n, [ds] * n, aim_weights=B(), rotate=0),
+                  lambda: [AtomGrid.from_pruned(drg(i), 1.2, r_sectors=rs, d_sectors=ds, center=coords[i], rotate=0) for i in range(n)], 0))
     for size in (6, 50, 110, 111):
         table.append((f"from_size:{size}", lambda size=size: MolGrid.from_size(nums, coords, size, rgrid=rg, aim_weights=B(), rotate=0),
                       lambda size=size: [AtomGrid(rg, degrees=None, sizes=[size], center=coords[i], rotate=0) for i in range(n)], 0))
@@ -443,11 +454,48 @@ def forms(ctx):
                           f"weights (order 3) of the hand-built grids", case)
 
 
+def user_weights(ctx):
+    """aim_weights may be ANY callable (points, atcoords, atnums, indices) -> weights: the molecular weights are the atomic
+    weights times whatever it returns, for one atom as well as for several (added after seeded change C07-E)."""
+    from grid.atomgrid import AtomGrid
+    from grid.molgrid import MolGrid
+
+    rg = small_rgrid(2)
+    calls = []
+
+    def fuzzy(points, atcoords, atnums, indices):
+        calls.append((len(points), len(atcoords), tuple(int(v) for v in indices)))
+        return 0.25 + np.exp(-0.3 * np.sum((points - atcoords[0]) ** 2, axis=1))
+
+    for mname in ("H", "CO", "H2O"):
+        nums = np.array(MOLS[mname][0])
+        coords = np.array(MOLS[mname][1], dtype=float)
+        for store in (False, True):
+            ctx.count(section="user-weights")
+            case = {"route": "user-weights", "molecule": mname, "store": store}
+            with warnings.catch_warnings():
+                warnings.simplefilter("ignore")
+                ats = [AtomGrid(rg, degrees=[5], center=coords[i], rotate=3) for i in range(len(nums))]
+                del calls[:]
+                mg = MolGrid(nums, ats, fuzzy, store=store)
+            pts = np.vstack([g.points for g in ats])
+            atw = np.hstack([g.weights for g in ats])
+            want = atw * (0.25 + np.exp(-0.3 * np.sum((pts - coords[0]) ** 2, axis=1)))
+            ctx.nontrivial(("user-weights", mname, store), section="user-weights")
+            if np.asarray(mg.weights).shape != want.shape or _gt(np.max(np.abs(np.asarray(mg.weights) - want)), 1e-13 * np.max(np.abs(want))):
+                ctx.violation("user-weights:weights-not-atomic-times-callable", f"{mname} (store={store}): weights differ from atomic weights x the "
+                              f"values returned by the user's aim_weights callable (called {len(calls)} times)", case)
+            f = np.cos(pts[:, 0]) + 2.0
+            if _gt(abs(float(mg.integrate(f)) - float(np.sum(want * f))), 1e-12 * float(np.sum(np.abs(want * f)))):
+                ctx.violation("user-weights:integral", f"{mname} (store={store}): integrate differs from sum of w_atomic x callable x f", case)
+
+
 def run(ctx):
     from vf.props.c05 import PRESETS
 
     ctx.guarded("structural", structural, ctx)
     ctx.guarded("forms", forms, ctx)
+    ctx.guarded("user-weights", user_weights, ctx)
     from vf import explore
 
     for store in (False, True):
@@ -474,6 +522,8 @@ def replay(ctx, case):
         explore.replay_history(ctx, case)
     elif case.get("route") == "forms":
         forms(ctx)
+    elif case.get("route") == "user-weights":
+        user_weights(ctx)
     elif case.get("route") == "structure":
         out = _struct_case((tuple(case["cfg"]), ctx.seed))
         ctx.merge(out[0] if isinstance(out, tuple) else out)
